@@ -103,6 +103,8 @@ U("c10-layout-char", "matrix", "c10_layout_views_char", {"C10": "quick"}, "compl
   "same for the code-point representation", cost=8)
 U("c10-alloc-guards", "matrix", "c10_alloc_guards", {"C10": "quick"}, "complete", ["MatrixSlab::alloc"],
   "for every haystack length <= 70000 and needle length: alloc refuses when a guard fails; on success the views have the lengths the DP relies on and the matrix view lies inside the slab", cost=8)
+U("c10-alloc-guards-char", "matrix", "c10_alloc_guards_char", {"C10": "quick"}, "complete", ["MatrixSlab::alloc::<char>"],
+  "code-point haystacks: for every haystack length <= 40000 (the slab holds at most 2048 chars; larger ones must be refused) and needle length: alloc refuses when a guard fails; on success the views have the lengths the DP relies on and the matrix view lies inside the slab", cost=8)
 U("c10-layout-canary", "matrix", "c10_layout_canary", {"C10": "quick"}, "complete", [], "canary", expect="fail", no_cover=True)
 
 # calculate_score, bounded: shapes instantiated here, contract fns in kani/score.rs
@@ -414,6 +416,16 @@ for (h, n, st) in ((3, 2, 0), (4, 2, 1), (4, 2, 0)):
        ["Matcher::fuzzy_match_optimal::<char, AsciiChar>", "MatcherDataView::<char>::setup", "MatcherDataView::score_row", "MatcherDataView::reconstruct_optimal_path"],
        "the REAL fuzzy_match_optimal on a code-point haystack under prefilter_non_ascii's postcondition: Some <=> normalised subsequence of the window; W; score == fzf scheme; None appends nothing", unwind=7,
        bound="code-point haystack window of %d chars%s from the model domain, ASCII needle %d, DEFAULT config, 256-byte slab" % (h - st, " preceded by one char" if st else "", n), cost=6, timeout=1500, stubs=CHAR_STUBS, core=(h == 3))
+for rep in (1, 2):
+    for (h, n) in ((4, 2), (4, 1), (5, 3)):
+        UC("c01-uni-prefilter-r%d-h%d-n%d" % (rep, h, n), "uni", "uni_prefilter::<%d,%d,%d>()" % (rep, h, n), {"C01": "quick" if h == 4 else "thorough"}, "bounded", ["Matcher::prefilter_non_ascii"],
+           "prefilter_non_ascii (%s): never rejects a haystack containing the needle as a normalised subsequence; start = first occurrence of needle[0], end-1 = last occurrence of the last needle char after start" % REPNAME[rep],
+           unwind=max(h + 3, 7), bound="%s, haystack %d, needle %d, model-domain chars, only_greedy symbolic" % (REPNAME[rep], h, n), cost=4, stubs=CHAR_STUBS)
+for uni in (False, True):
+    for L in (3, 4):
+        UC("c05-white-space-%s-%d" % ("unicode" if uni else "ascii", L), "uni", "white_space_counts::<%s,%d>()" % ("true" if uni else "false", L), {"C05": "quick"}, "bounded", ["Utf32Str::leading_white_space", "Utf32Str::trailing_white_space"],
+           "leading/trailing_white_space return the number of leading/trailing whitespace characters (0/0 when everything is whitespace)", unwind=L + 3,
+           bound="%s content of length %d (model domain, U+000B excluded)" % ("code-point" if uni else "ASCII", L), cost=3, stubs=CHAR_STUBS if uni else [])
 UC("c01-uni-canary", "uni", "uni_canary()", {"C01": "quick", "C05": "quick"}, "bounded", [], "canary", unwind=8, expect="fail", no_cover=True, stubs=CHAR_STUBS)
 
 # ---------------------------------------------------------------------------
